@@ -491,6 +491,13 @@ func startupVsResubscribe(point string, startPlan int, hookPlan int, resub bool,
 // staleDoneVsResubscribe: the source reacts to the end of its Start context with updater.Done()
 // (as the GraphQL data source does), but only after a new subscriber has re-created the trigger.
 func staleDoneVsResubscribe(explicit bool) func(sc *Script) {
+	return staleFinishVsResubscribe(explicit, "")
+}
+
+// staleFinishVsResubscribe: as above; terminal "complete" / "error": the old source first sends its
+// terminal message and then Done(), all after the trigger was re-created. Afterwards the new source
+// emits events, which the new subscriber must receive.
+func staleFinishVsResubscribe(explicit bool, terminal string) func(sc *Script) {
 	return func(sc *Script) {
 		var instA *Instance
 		sc.step("A-subscribes", func() {
@@ -509,6 +516,9 @@ func staleDoneVsResubscribe(explicit bool) func(sc *Script) {
 			sc.settle()
 		})
 		sc.step("source-of-A-finishes", func() {
+			if terminal != "" && instA != nil {
+				sc.r.SourceTerminal(instA, terminal == "error")
+			}
 			if explicit {
 				if instA != nil {
 					sc.r.SourceDone(instA, "source")
@@ -524,6 +534,8 @@ func staleDoneVsResubscribe(explicit bool) func(sc *Script) {
 			for _, i := range sc.r.Instances() {
 				if i.Creator == sc.subs["B"] {
 					sc.r.Emit(i, 1, nil, false)
+					sc.r.Emit(i, 2, nil, false)
+					sc.r.Emit(i, 3, sc.subs["B"], false)
 				}
 			}
 		})
@@ -632,6 +644,10 @@ func ScriptCases(c13 bool) []ScriptCase {
 			for _, comp := range []string{"unsub", "rmclient"} {
 				add(ScriptCase{Name: fmt.Sprintf("join(hook=%d) vs %s", hp, comp), Row: 10, Hookable: true, build: joinVsUnsubscribe(hp, comp)})
 			}
+		}
+		for _, term := range []string{"", "complete", "error"} {
+			add(ScriptCase{Name: fmt.Sprintf("previous source instance finishes (terminal=%q, Done from its context-end reaction) after the trigger was re-created", term), Row: 15, AutoDone: true, build: staleFinishVsResubscribe(false, term)})
+			add(ScriptCase{Name: fmt.Sprintf("previous source instance finishes (terminal=%q, explicit Done) after the trigger was re-created", term), Row: 15, build: staleFinishVsResubscribe(true, term)})
 		}
 		add(ScriptCase{Name: "done vs unsubscribe rounds", Row: 11, Perturb: 0.5, build: doneVsUnsubscribe(12, false)})
 		add(ScriptCase{Name: "terminal+done vs unsubscribe rounds", Row: 11, Perturb: 0.5, build: doneVsUnsubscribe(12, true)})
